@@ -224,9 +224,9 @@ def contracts():
                 + (match cnf.global { Some(g) => opt_strs(g.root_certificates), None => Seq::<Seq<char>>::empty() }), //@C18.roots_are_cmdline_then_endpoint_then_global
         r matches Ok(e) ==> e.name@ == self.name@ && e.url@ == self.url@ && e.tos_agreed == self.tos_agreed && e.nonce is None,
         // every rate limit the endpoint names must exist
-        r is Ok ==> forall|k: int| 0 <= k < self.rate_limits@.len() ==> rl_exists(*cnf, #[trigger] self.rate_limits@[k]@), //@C14.rate_limit_reference_resolves_or_error
+        r is Ok ==> forall|k: int| 0 <= k < self.rate_limits@.len() ==> rl_exists(*cnf, #[trigger] self.rate_limits@[k]@), //@C14.rate_limit_reference_resolves_or_error,C09.every_limit_the_endpoint_names_is_attached_or_start_up_fails
 """, loops={1: """
-    invariant forall|k: int| 0 <= k < it.index@ ==> rl_exists(*cnf, #[trigger] self.rate_limits@[k]@),
+    invariant forall|k: int| 0 <= k < it.index@ ==> rl_exists(*cnf, #[trigger] self.rate_limits@[k]@), //@C14.rate_limit_reference_resolves_or_error,C09.every_limit_the_endpoint_names_is_attached_or_start_up_fails
 """}, at=[("loop_iter", None, 1, "it:"),
           ("before_stmt", "crate::endpoint::Endpoint::new(", 1, """
         proof {
@@ -385,7 +385,7 @@ pub fn parse_duration(input: &str) -> (r: Result<Duration, Error>)
         if "::" not in key:
             u.verify(C, key, "config", props=["C14", "C19"] + (["C13", "C18", "C10", "C06"] if key == "read_cnf" else []), fns={key: fs})
             continue
-        p = ["C14", "C06"] if fn in ("get_renew_delay", "get_random_early_renew") else ["C13"] if fn in props["C13"] else ["C14", "C10", "C19"] if "hook" in fn else ["C18", "C14"] if fn in ("to_generic", "get_endpoint") else ["C18", "C14"] if fn == "to_generic" else ["C14"]
+        p = ["C14", "C06"] if fn in ("get_renew_delay", "get_random_early_renew") else ["C13"] if fn in props["C13"] else ["C14", "C10", "C19"] if "hook" in fn else ["C18", "C14", "C09"] if fn in ("to_generic", "get_endpoint") else ["C18", "C14"] if fn == "to_generic" else ["C14"]
         u.verify(C, key, "config", props=p, fns={fn: fs})
     return u
 
